@@ -209,6 +209,9 @@ pub fn run(ctx: &Ctx) -> Report {
     o.long_steps = ctx.thorough();
     let tally = run_sharded(ctx, total, |idx, r, t| {
         let mut o = o.clone();
+        // cogenerators with auxiliaries and no EPB service of their own (rejected at parse since F16;
+        // before it they were accepted and booked inconsistently between balance and strip)
+        o.aux_hostile = r.chance(1, 3);
         match r.below(6) {
             0 => {
                 o.aux = Tri::Always;
